@@ -938,3 +938,189 @@ def rule_adding_narrows(ctx):
 
 def names_of(e):
     return set(x.id for x in ast.walk(e) if isinstance(x, ast.Name))
+
+
+# ------------------------------------------------------------------- W.bitslice
+
+def rule_bit_slice(ctx):
+    """W.bitslice: the chunking BIT STRING encoder cuts each segment as `alignedValue[start:stop]` from an object whose tag
+    set it has just replaced by the segment tag.  A slice of a BIT STRING therefore (a) is made with `self.clone(...)` - it
+    keeps the tag set (and constraints) of the object it was cut from - and (b) is given its bits as a sequence, one element
+    per bit, or as a sized integer whose length has been set: a bare integer has the length of its highest one bit, so a
+    run that begins with zero bits would come out shorter."""
+    from sa.cfg import known_at
+    f = ctx.func('type.univ.BitString.__getitem__')
+    cfg = ctx.cfg(f)
+    par = f.params()[1]
+    n = 0
+    for r in cfg.stmt_nodes():
+        if not (isinstance(r.ast, ast.Return) and r.ast.value is not None):
+            continue
+        if not (known_at(cfg, r, '%s.__class__ is slice' % par, True) or known_at(cfg, r, 'isinstance(%s, slice)' % par, True)):
+            continue
+        n += 1
+        v = r.ast.value
+        via_clone = isinstance(v, ast.Call) and norm(v.func) == 'self.clone' and len(v.args) == 1
+        ctx.ob('W.bitslice', f, 'slice (line %d) is a clone of the object it was cut from' % r.ast.lineno, via_clone,
+               '`%s`: the slice gets the tag set of the class, not of the object - the segments of a chunked BIT STRING whose tag set was '
+               'declared on the class come out with the outer tag instead of the universal one' % norm(v)[:60] if not via_clone else 'self.clone(...)',
+               node=r.ast)
+        if not via_clone:
+            continue
+        a = v.args[0]
+        sized = isinstance(a, (ast.ListComp, ast.GeneratorExp, ast.List, ast.Tuple)) or \
+            (isinstance(a, ast.Call) and isinstance(a.func, ast.Name) and a.func.id in ('list', 'tuple')) or \
+            (isinstance(a, ast.Call) and isinstance(a.func, ast.Attribute) and a.func.attr == 'setBitLength')
+        if isinstance(a, ast.Name):
+            defs = [x.value for x in walk_own(f.node) if isinstance(x, ast.Assign) and len(x.targets) == 1 and norm(x.targets[0]) == a.id]
+            sized = bool(defs) and all(isinstance(d, (ast.ListComp, ast.List, ast.Tuple)) or
+                                       (isinstance(d, ast.Call) and isinstance(d.func, ast.Attribute) and d.func.attr == 'setBitLength') for d in defs)
+        ctx.ob('W.bitslice', f, 'slice (line %d) carries its length' % r.ast.lineno, sized,
+               '`%s` is an integer without a recorded bit length: a run that begins with 0 bits comes out shorter (CER segments of a long '
+               'BIT STRING lose their leading zeros)' % norm(a)[:60] if not sized else 'one element per bit / sized', node=r.ast)
+    if n < 1:
+        raise AnalysisError('W.bitslice: slice arm of %s not found' % f.short)
+
+
+# ------------------------------------------------------------------- C10.reqset
+
+def rule_required_set(ctx):
+    """C10.reqset: the decoders' "all mandatory components seen" test uses `NamedTypes.requiredComponents`.  A component is
+    in that set exactly when it is neither OPTIONAL nor DEFAULT - whatever else is true of it (truth table over the atoms
+    of the comprehension's condition)."""
+    import itertools
+    f = ctx.func('type.namedtype.NamedTypes.__init__')
+    comps = []
+    for a in walk_own(f.node):
+        if isinstance(a, ast.Assign) and any(isinstance(t, ast.Attribute) and t.attr.endswith('requiredComponents') for t in a.targets):
+            for c in ast.walk(a.value):
+                if isinstance(c, (ast.ListComp, ast.GeneratorExp, ast.SetComp)):
+                    comps.append((a, c))
+    if len(comps) != 1:
+        raise AnalysisError('requiredComponents comprehension not found in %s' % f.short)
+    a, c = comps[0]
+    gen = c.generators[0]
+    conds = gen.ifs
+    atoms = {}
+
+    def ev(e, env):
+        if isinstance(e, ast.BoolOp):
+            vals = [ev(x, env) for x in e.values]
+            return all(vals) if isinstance(e.op, ast.And) else any(vals)
+        if isinstance(e, ast.UnaryOp) and isinstance(e.op, ast.Not):
+            return not ev(e.operand, env)
+        return env[norm(e)]
+
+    def collect(e):
+        if isinstance(e, ast.BoolOp):
+            for x in e.values:
+                collect(x)
+        elif isinstance(e, ast.UnaryOp) and isinstance(e.op, ast.Not):
+            collect(e.operand)
+        else:
+            atoms[norm(e)] = e
+    for x in conds:
+        collect(x)
+    opt = [k for k in atoms if k.endswith('.isOptional')]
+    dfl = [k for k in atoms if k.endswith('.isDefaulted')]
+    bad = None
+    if len(opt) == 1 and len(dfl) == 1:
+        names = sorted(atoms)
+        for bits in itertools.product((False, True), repeat=len(names)):
+            env = dict(zip(names, bits))
+            got = all(ev(x, env) for x in conds)
+            want = not env[opt[0]] and not env[dfl[0]]
+            if got != want:
+                bad = ', '.join('%s=%s' % kv for kv in sorted(env.items()))
+                break
+    else:
+        bad = 'the condition does not test isOptional and isDefaulted'
+    ctx.ob('C10.reqset', f, 'required <=> neither OPTIONAL nor DEFAULT', bad is None,
+           'for %s the component is %s the required set: a mandatory component can be missing from an accepted encoding '
+           '(`30 03 04 01 41` for SEQUENCE { name OCTET STRING, marker NULL })' % (bad, 'left out of' ) if bad else
+           ' and '.join(norm(x) for x in conds), node=c)
+
+
+# ------------------------------------------------------------------- C14.encall
+
+def rule_encoders_check_first(ctx):
+    """C14.encall: the SEQUENCE OF / SET OF content encoders of every codec return contents octets only after the value's
+    own constraints were asked (`isInconsistent`, directly or through `_encodeComponents`) - there is no way out in front
+    of that, not even for an empty value (SIZE (1..3) must be able to object).  The `ifNotEmpty` early return is exempt:
+    that option never reaches a content encoder (A5.itemopt)."""
+    from sa.cfg import known_at
+    from sa.rules.tables import enc_chain, by_type
+    seen = set()
+    n = 0
+    for codec in ('ber', 'cer', 'der'):
+        e = enc_chain(ctx, codec)
+        for cname in ('type.univ.SequenceOf', 'type.univ.SetOf'):
+            tc = ctx.cls(cname)
+            _, tid = ctx.ev.class_attr(tc, 'typeId')
+            _, ts = ctx.ev.class_attr(tc, 'tagSet')
+            inst, how = by_type(e, tid, ts)
+            if not isinstance(inst, VInstance):
+                raise AnalysisError('no %s encoder in %s' % (cname, codec))
+            m = inst.ci.method('encodeValue')
+            if m is None or m in seen:
+                continue
+            seen.add(m)
+            cfg = ctx.cfg(m)
+            checks = [x for x in cfg.stmt_nodes() if x.ast is not None and any(
+                (isinstance(c, ast.Call) and norm(c.func) in ('self._encodeComponents',) or
+                 (isinstance(c, ast.Call) and isinstance(c.func, ast.Attribute) and c.func.attr == 'encodeValue' and not norm(c.func.value).startswith('self')) or
+                 (isinstance(c, ast.Attribute) and c.attr == 'isInconsistent'))
+                for x_ in _exprs(x) for c in ast.walk(x_))]
+            for r in cfg.stmt_nodes():
+                if not isinstance(r.ast, ast.Return) or r.ast.value is None:
+                    continue
+                if r in checks:
+                    n += 1
+                    ctx.ob('C14.encall', m, '`%s` (line %d) comes after the consistency check' % (norm(r.ast)[:40], r.ast.lineno), True, 'the return itself delegates', node=r.ast)
+                    continue
+                if known_at(cfg, r, "options.get('ifNotEmpty', False)", True):
+                    continue
+                n += 1
+                ok = cfg.must_pass(cfg.entry, r, lambda z: z in checks)
+                ctx.ob('C14.encall', m, '`%s` (line %d) comes after the consistency check' % (norm(r.ast)[:40], r.ast.lineno), ok,
+                       'a path returns contents without `isInconsistent` having been asked: an emptied SET OF under SIZE (1..3) is written by this '
+                       'codec while the others refuse it' if not ok else 'after _encodeComponents / isInconsistent', node=r.ast)
+    if n < 2:
+        raise AnalysisError('C14.encall: content encoders not found')
+
+
+# ------------------------------------------------------------------- C16.dynorder
+
+def rule_dynamic_order(ctx):
+    """C16.dynorder: a record decoded without a schema names its members `field-0`, `field-1`, ... `field-10`; the encoders walk
+    `values()`.  Members are visited in POSITION order: `values()` / `items()` of the record base loop over positions (or
+    over the names as `DynamicNames.__iter__` hands them out), and `DynamicNames.__iter__` goes by index - never by sorting
+    names (`field-10` sorts before `field-2`)."""
+    def sources(fn):
+        out = []
+        for x in walk_own(fn.node):
+            if isinstance(x, ast.For):
+                out.append(x.iter)
+            if isinstance(x, (ast.GeneratorExp, ast.ListComp)):
+                out.append(x.generators[0].iter)
+            if isinstance(x, ast.Return) and isinstance(x.value, ast.Call) and norm(x.value.func) == 'iter' and x.value.args:
+                out.append(x.value.args[0])
+        return out
+
+    def by_index(e):
+        return isinstance(e, ast.Call) and norm(e.func) == 'range'
+    n = 0
+    it = ctx.func('type.univ.SequenceAndSetBase.DynamicNames.__iter__')
+    src = sources(it)
+    n += 1
+    ctx.ob('C16.dynorder', it, 'dynamic names are handed out by index', bool(src) and all(by_index(s_) for s_ in src),
+           'iteration over `%s`: names sorted as text put `field-10` before `field-2`, so a schemaless record of more than ten members '
+           're-encodes with its members permuted' % '; '.join(norm(s_)[:40] for s_ in src) if not (src and all(by_index(s_) for s_ in src)) else
+           'range(...) over the index map', node=it.node)
+    for nm in ('values', 'items'):
+        g = ctx.func('type.univ.SequenceAndSetBase.%s' % nm)
+        src = sources(g)
+        ok = bool(src) and all(by_index(s_) or norm(s_) == 'self' for s_ in src)
+        n += 1
+        ctx.ob('C16.dynorder', g, '%s() visits the members in position order' % nm, ok,
+               'iteration over `%s`' % '; '.join(norm(s_)[:40] for s_ in src) if not ok else 'positions (or the names in index order)', node=g.node)
